@@ -14,13 +14,19 @@ fn main() -> anyhow::Result<()> {
         Some("tables") => tables::run(&args[2..]),
         Some("val") => {
             let kind = a.rest.first().cloned().unwrap_or_else(|| "keep-sorted".into());
-            let rows = core::par_cases(a.n, a.seed, |ctx, seed, i| gen_val::generate(ctx, seed, i, &kind));
+            let malformed = a.rest.iter().any(|s| s == "malformed");
+            let rows = core::par_cases(a.n, a.seed, |ctx, seed, i| gen_val::generate(ctx, seed, i, &kind, malformed));
             core::write_out(&a.out, &rows)
         }
         Some("replay") => core::replay(a.rest.first().map(String::as_str).unwrap_or("cases.jsonl"), &a.out),
         Some("diff") => {
             let mode = a.rest.first().cloned().unwrap_or_else(|| "drift".into());
             let rows = core::par_cases(a.n, a.seed, |ctx, seed, i| gen_diff::generate(ctx, seed, i, &mode));
+            core::write_out(&a.out, &rows)
+        }
+        Some("multi") => {
+            let flags = a.rest.first().map(|s| s == "flags").unwrap_or(false);
+            let rows = core::par_cases(a.n, a.seed, |ctx, seed, i| gen_src::generate_multi(ctx, seed, i, flags));
             core::write_out(&a.out, &rows)
         }
         Some("unbalanced") => {
